@@ -575,6 +575,12 @@ impl Runner {
             real_final.insert(key, origin.clone());
             let kgroup = match cls.as_str() {
                 "ledger" | "volatile" | "imm" | "imm_dir_other" | "escaped" => cls.as_str(),
+                // a file bearing the name of one of the client's own bootstrap markers is not "any other path": the client
+                // rewrites both markers after the archives were unpacked, so none placed by an archive survives
+                // (after a SUCCESSFUL download; `protocolMagicId` only for a known network -- in the other cases the client
+                // writes no marker and what an archive placed there stays, like any other path)
+                "clean" if res == "ok" => "client_marker_name",
+                "magic" if res == "ok" && c.net == "known" => "client_marker_name",
                 _ => "other_outside_immutable",
             };
             let whitelisted = match rel.strip_prefix("immutable/") {
